@@ -1,3 +1,95 @@
-"""Kani part (DESIGN.md section 8): loop-free complete harnesses and bounded stand-ins. Filled in later."""
+"""Kani part (DESIGN.md section 8): loop-free complete harnesses (macro-generated code, documented panic) and
+bounded stand-ins that validate leaf contracts the Verus prelude assumes. The harness sources live in
+/verif/kani and are injected, behind #[cfg(kani)], into a SCRATCH COPY of /repo's working tree at check time
+(add-only; /repo itself carries no hook)."""
+import os, re, shutil, subprocess, tempfile, time, hashlib
+
+VERIF = os.path.dirname(os.path.dirname(os.path.abspath(__file__)))
+
+# module file to extend, injected file, source in /verif/kani
+MODULES = {
+    'basis_function': ('src/basis_function/mod.rs', 'src/basis_function/kani_harness.rs', 'basis_function_harness.rs'),
+    'statistics': ('src/statistics/mod.rs', 'src/statistics/kani_harness.rs', 'statistics_harness.rs'),
+    'levmar': ('src/solvers/levmar/mod.rs', 'src/solvers/levmar/kani_harness.rs', 'levmar_harness.rs'),
+}
+# harness -> (module, kind, bound/explanation)
+HARNESSES = {}
+for n in range(1, 11):
+    HARNESSES['dispatch_arity_%d' % n] = ('basis_function', 'complete', 'loop-free; all u64 parameter values, symbolic position')
+HARNESSES['cbr_rejects_bad_p_f64'] = ('statistics', 'complete', 'loop-free prefix; all f64 bit patterns outside (0,1) or non-finite; code after the assertion must be unreachable')
+HARNESSES['is_all_finite_2x2'] = ('levmar', 'bounded', '2 x 2 matrix, all f64 bit patterns, unwind 6')
+HARNESSES['to_vector_colmajor_3x2'] = ('levmar', 'bounded', '3 x 2 matrix, symbolic entries and position, unwind 8')
+
+
+def prepare(repo, scratch, modules):
+    rc = os.path.join(scratch, 'repo')
+    shutil.copytree(repo, rc, ignore=shutil.ignore_patterns('target', '.git'))
+    for m in modules:
+        modfile, inj, src = MODULES[m]
+        with open(os.path.join(rc, modfile), 'a') as f:
+            f.write('\n#[cfg(kani)]\nmod kani_harness;\n')
+        shutil.copy(os.path.join(VERIF, 'kani', src), os.path.join(rc, inj))
+    return rc
+
+
+def parse(out, names):
+    res = {}
+    blocks = re.split(r'Checking harness ', out)
+    for b in blocks[1:]:
+        name = b.split('...')[0].strip().split('::')[-1]
+        m = re.search(r'VERIFICATION:- (SUCCESSFUL|FAILED)', b)
+        status = None
+        if m:
+            status = 'SUCCESS' if m.group(1) == 'SUCCESSFUL' else 'FAILURE'
+        # a satisfied cover in a should_panic harness means code after the panic was reached
+        cov = re.findall(r'Status: (SATISFIED|UNSATISFIABLE|UNREACHABLE)\s*\n\s*Description: "([^"]*)"', b)
+        for st, desc in cov:
+            if 'returned for a rejected' in desc and st == 'SATISFIED':
+                status = 'FAILURE'
+        mc = re.search(r'(\d+) of (\d+) cover properties satisfied', b)
+        if mc and int(mc.group(1)) > 0:
+            status = 'FAILURE'
+        failed = re.findall(r'Failed Checks: (.*)', b)
+        res[name] = dict(status=status or 'UNKNOWN', failed_checks=failed[:5], output_tail=b[-1500:])
+    return res
+
+
 def run_harnesses(P, tier, repo, pid):
-    return {'harnesses': [], 'cmds': []}
+    cfg = P.get('kani') or {}
+    names = list(cfg.get('quick', []))
+    if tier == 'thorough':
+        names += [n for n in cfg.get('thorough', []) if n not in names]
+    if not names:
+        return {'harnesses': [], 'cmds': []}
+    modules = sorted(set(HARNESSES[n][0] for n in names))
+    scratch = tempfile.mkdtemp(prefix='vpkani-%s-' % pid)
+    out_h = []
+    try:
+        rc = prepare(repo, scratch, modules)
+        cmd = ['cargo', 'kani', '--target-dir', os.path.join(scratch, 'target')]
+        for n in names:
+            cmd += ['--harness', n]
+        env = dict(os.environ, CARGO_NET_OFFLINE='true')
+        t0 = time.time()
+        timeout = 3000 if tier == 'thorough' else 1500
+        try:
+            p = subprocess.run(cmd, cwd=rc, capture_output=True, text=True, timeout=timeout, env=env)
+            out = p.stdout + '\n' + p.stderr
+            timed_out = False
+        except subprocess.TimeoutExpired as e:
+            out = (e.stdout or b'').decode('utf8', 'replace') if isinstance(e.stdout, bytes) else (e.stdout or '')
+            timed_out = True
+        wall = time.time() - t0
+        res = parse(out, names)
+        for n in names:
+            mod, kind, bound = HARNESSES[n]
+            r = res.get(n)
+            if r is None:
+                st = 'TIMEOUT' if timed_out else 'NOT-RUN'
+                r = dict(status=st, failed_checks=[], output_tail=out[-1500:])
+            out_h.append(dict(name=n, kind=kind, bound=bound, status=r['status'], file=MODULES[mod][0],
+                              failed_checks=r['failed_checks'], output_tail=r['output_tail'] if r['status'] != 'SUCCESS' else '',
+                              concrete=None))
+        return {'harnesses': out_h, 'cmds': [' '.join(cmd[:2] + cmd[4:]) + ' (in a scratch copy of /repo with kani/*.rs injected behind cfg(kani)); %.0fs' % wall]}
+    finally:
+        shutil.rmtree(scratch, ignore_errors=True)
